@@ -246,7 +246,7 @@ func (a *aggregate) write(file, meta string) error {
 	var zero []string
 	expect := map[string][]string{
 		"C12": {"exec-other", "exec-tree", "exec-noclip", "add-split", "add-reorder", "add-after-exec", "dirty-solution", "solution-alias", "scribble-input", "scribble-output", "field-change", "callback-toggle", "reentrant-call"},
-		"C17": {"immediate", "gc", "heap-churn", "new-goroutine", "other-pool-stream", "after-other-calls", "interleaved", "preempt", "preempt-shared"},
+		"C17": {"immediate", "gc", "heap-churn", "new-goroutine", "other-pool-stream", "reused-buffers", "after-other-calls", "interleaved", "preempt", "preempt-shared"},
 		"C18": {"preempt", "preempt-shared", "preempt-in-dependency", "preempt-in-callback", "pool-recycle-cross-task", "reentrant-call", "callback-entered"},
 	}
 	for _, k := range expect[a.prop] {
